@@ -268,6 +268,55 @@ func c01Assign(c *c01) {
 	check("aug-alias", "s = bytes(iter([97, 98, 99]))\nt = s\nt += b'x'\nu = s\nu += vh.v(0, b'y')\n", []string{"0"}, map[string]string{"s": "b\"abc\"", "t": "b\"abcx\"", "u": "b\"abcy\""}, "")
 	check("aug-alias", "s = tuple(iter([1, 2, 3]))\nt = s\nt += (7,)\nu = s\nu += vh.v(0, (8,))\n", []string{"0"}, map[string]string{"s": "(1,2,3)", "t": "(1,2,3,7)", "u": "(1,2,3,8)"}, "")
 	check("aug-alias", "s = 'a'\nt = s\ns += vh.v(0, 'b')\n", []string{"0"}, map[string]string{"s": "'ab'", "t": "'a'"}, "")
+	// S6: operators applied to instances of Python classes run the class's special method,
+	// once, after the operands: binary, reflected, in-place (falling back to binary),
+	// comparison and unary operators
+	proto := func(src string, log []string, name, val string) {
+		if !rc.Take() {
+			return
+		}
+		fields := core.Fields{"part": "assign", "form": "operator-protocol", "src": src}
+		rc.Guard(fields, func() string { return src }, func() {
+			_, g, got, err := c.run(src, py.ExecMode)
+			rc.Eval("assign:operator-protocol", src)
+			exp := "log=[" + strings.Join(log, ",") + "] " + name + "=" + val
+			obs := "log=[" + strings.Join(got, ",") + "]"
+			if err != nil {
+				t, _, _, _ := harness.ExcInfo(err)
+				obs += " exc=" + t
+				// the operands were evaluated and then the operator did not find the method
+				sig := "operator-protocol:wrong-dispatch"
+				if t == "TypeError" && strings.Join(got, ",") == strings.Join(log[:len(log)-1], ",") {
+					sig = "operator-protocol:not-dispatched"
+				}
+				rc.Deviate(core.Deviation{Fields: fields, Input: src, Expected: exp, Observed: obs, Sig: sig})
+				return
+			}
+			obs += " " + name + "=" + canonOrMissing(g[name])
+			if obs != exp {
+				sig := "operator-protocol:wrong-dispatch"
+				if strings.Join(got, ",") == strings.Join(log[:len(log)-1], ",") {
+					sig = "operator-protocol:not-dispatched" // a value was produced without running the method
+				}
+				rc.Deviate(core.Deviation{Fields: fields, Input: src, Expected: exp, Observed: obs, Sig: sig})
+			}
+		})
+	}
+	for _, op := range c01BinAll {
+		lg := func(kind, v string) string { return "('" + kind + "','" + op + "'," + v + ")" }
+		proto("r = BP() "+op+" vh.v(0, 1)\n", []string{"0", lg("bin", "1")}, "r", "100")
+		proto("r = vh.v(0, 5) "+op+" RP()\n", []string{"0", lg("rbin", "5")}, "r", "300")
+		proto("r = IP() "+op+" vh.v(0, 1)\n", []string{"0", lg("bin", "1")}, "r", "100")
+		proto("x = IP()\nx "+op+"= vh.v(0, 1)\n", []string{"0", lg("inplace", "1")}, "x", "200")
+		proto("x = BP()\nx "+op+"= vh.v(0, 1)\n", []string{"0", lg("bin", "1")}, "x", "100")
+		proto("x = 5\nx "+op+"= vh.v(0, RP())\n", []string{"0", lg("rbin", "5")}, "x", "300")
+	}
+	for _, op := range []string{"<", "<=", "==", "!=", ">", ">="} {
+		proto("r = CP() "+op+" vh.v(0, 1)\n", []string{"0", "('cmp','" + op + "',1)"}, "r", "400")
+	}
+	for _, op := range []string{"-", "+", "~"} {
+		proto("r = "+op+"vh.v(0, UP())\n", []string{"0", "('un','" + op + "')"}, "r", "500")
+	}
 	// decorated definitions: decorators (top to bottom), then defaults, keyword-only defaults
 	// and annotations are evaluated at definition time, in that order; then the decorators
 	// are applied bottom-up
